@@ -167,6 +167,9 @@ func (d *duplexHTTPCall) CloseRead() error {
 	}
 	verifYield("closeread")
 	if err := discard(d.response.Body); err != nil {
+		// Even if we can't drain the body (for example, because the context was
+		// canceled), we must close it to release the underlying resources.
+		_ = d.response.Body.Close()
 		return wrapIfRSTError(err)
 	}
 	return wrapIfRSTError(d.response.Body.Close())
